@@ -59,6 +59,10 @@ const (
 	c19PartFor = 4 * time.Second
 )
 
+// c19Fail is one oracle failure collected inside a bubble (reported through
+// vx after the bubble has ended).
+type c19Fail struct{ sig, what string }
+
 type c19Dgram struct {
 	idx      int // global index, -1 for harness-made copies
 	from, to netip.AddrPort
